@@ -2,7 +2,7 @@
 # tools/confirm_seed.sh <seed-dir with patch.diff + demo_test.go> <pkg dir relative to teamserver> <go test -run regex> [yaotl]
 # Confirms in a scratch worktree: patch applies, builds, demo FAILS with it and PASSES without it.
 # With a 4th arg "yaotl" also runs the pinned yaotl test suite with the patch applied.
-D="$1"; PKG="$2"; RUN="$3"; Y="$4"
+D="$(readlink -f "$1")"; PKG="$2"; RUN="$3"; Y="$4"
 export GOFLAGS=-mod=mod GOPROXY=off GOSUMDB=off GOTOOLCHAIN=local
 WT=$(mktemp -d /tmp/confirm.XXXXXX)
 git -C /repo worktree add -q --detach "$WT" HEAD || exit 2
